@@ -36,7 +36,7 @@ Print Assumptions C14_no_retry.
    each union node demands that the first variant of the tried category whose SHAPE may accept the
    payload (all required keys present / primitive or container kind coercible) is a variant the
    payload safely conforms to, that a mapped discriminator value leads to such a variant, and that
-   a dict payload meant for a typed map is not pre-empted by dataclass variants. *)
+   a dict payload that no dataclass variant may accept reaches a raw-dict / typed-map variant it safely conforms to. *)
 Theorem C14_lossless_partial : forall t j, safe t j = true -> lossless t j.
 Proof. exact safe_lossless. Qed.
 Print Assumptions C14_lossless_partial.
@@ -94,8 +94,9 @@ Theorem C14_refuted_F14d :
 Proof. exact refuted_F14d. Qed.
 Print Assumptions C14_refuted_F14d.
 
-Theorem C14_refuted_F14e :
-  conforms (nth 1 [tA; TMap TInt] TNone) j_F14e = true /\ safe u_F14e j_F14e = false /\
-  structure u_F14e j_F14e = Err /\ ~ lossless u_F14e j_F14e.
-Proof. exact refuted_F14e. Qed.
-Print Assumptions C14_refuted_F14e.
+(* F14e is fixed: the former witness (Union[A, dict[str,int]] with {q:1}) now meets the guard and the spec *)
+Theorem C14_regression_F14e :
+  conforms (nth 1 [tA; TMap TInt] TNone) j_F14e = true /\ safe u_F14e j_F14e = true /\
+  structure u_F14e j_F14e = Ok (VDict [(k_q, VInt 1%Z)]) /\ approx (unstructure (VDict [(k_q, VInt 1%Z)])) j_F14e = true.
+Proof. exact regression_F14e. Qed.
+Print Assumptions C14_regression_F14e.
